@@ -56,10 +56,29 @@ def runs_of_ones(c):
         else: i += 1
     return out
 
+_MISSING = object()
+class CellDict(dict):
+    """memory cells of one region; while a write log is active (fork/merge of branch arms) the previous content of
+    every cell is recorded before its first modification"""
+    __slots__ = ("wl", "rname")
+    def __setitem__(self, k, v):
+        wl = self.wl
+        if wl[0] is not None:
+            key = (self.rname, k)
+            if key not in wl[0]: wl[0][key] = dict.get(self, k, _MISSING)
+        dict.__setitem__(self, k, v)
+    def pop(self, k, *d):
+        wl = self.wl
+        if wl[0] is not None and k in self:
+            key = (self.rname, k)
+            if key not in wl[0]: wl[0][key] = dict.get(self, k, _MISSING)
+        return dict.pop(self, k, *d)
+
 class Region:
-    def __init__(self, name, size=None, zero=False, kind="mem"):
+    def __init__(self, name, size=None, zero=False, kind="mem", wl=None):
         self.name, self.size, self.zero, self.kind = name, size, zero, kind
-        self.b = {}          # byte offset -> (value, byte index k within value, value size in bytes)
+        self.b = CellDict()          # byte offset -> (value, byte index k within value, value size in bytes)
+        self.b.wl = wl if wl is not None else [None]; self.b.rname = name
         self.freed = False
 
 class LSym:
@@ -83,19 +102,21 @@ class LSym:
         self.events = []          # ('branch', fn, cond) / ('addr', ...) records for relational checks
         self.record_events = False
         self.n_branches = 0; self.n_addrs = 0; self.cur_call_rty = None
+        self.wl = [None]          # active write log (shared with every region's CellDict)
+        self.merges = 0; self._ipdom = {}
 
     # ------------------------------------------------------------------ memory
     def new_region(self, tag, size=None, zero=False, kind="mem"):
         self.nreg += 1
         name = "%s#%d" % (tag, self.nreg)
-        self.regions[name] = Region(name, size, zero, kind)
+        self.regions[name] = Region(name, size, zero, kind, wl=self.wl)
         return Ptr(name, 0)
     def global_region(self, gname):
         name = "global:" + gname
         if gname in getattr(self.mod, "ambiguous", ()): raise Unsupported("global %s is defined differently in two linked modules" % gname)
         if name not in self.regions:
             size, items = self.mod.global_init(gname)
-            R = Region(name, size, kind="global"); self.regions[name] = R
+            R = Region(name, size, kind="global", wl=self.wl); self.regions[name] = R
             for off, kind, payload in items:
                 if kind == "bytes":
                     for i, bv in enumerate(payload): R.b[off + i] = (Poly.const(bv), 0, 1)
@@ -720,6 +741,14 @@ class LSym:
             hi = self.P(self.mk_slice(a[0], 0, w - k)).scale(1 << k)
             lo = self.P(self.mk_slice(a[1], w - k, w))
             return hi + lo
+        m = re.match(r'llvm\.u(add|sub)\.sat\.i(\d+)', name)
+        if m:
+            w = int(m.group(2)); pa, pb = self.P(a[0]), self.P(a[1])
+            if m.group(1) == "add":
+                r = pa + pb; c = Cond("cmp", "ge", r, Poly.const(1 << w))
+                return self.select(c, Poly.const((1 << w) - 1), r)
+            r = pa - pb; c = Cond("cmp", "lt", r, ZERO)
+            return self.select(c, ZERO, r)
         m = re.match(r'llvm\.(umin|umax)\.i(\d+)', name)
         if m:
             pa, pb = self.P(a[0]), self.P(a[1])
@@ -763,9 +792,13 @@ class LSym:
     def run(self, fn, args):
         env = {}
         for p, v in zip(fn.params, args): env[p] = v
-        lab = fn.order[0]; prev = None
+        return self.run_blocks(fn, env, fn.order[0], None, None)[1]
+
+    def run_blocks(self, fn, env, lab, prev, stop):
+        """execute from block `lab` until the function returns -> ("ret", value) or control reaches block `stop` -> ("stop", predecessor)"""
         doomed = None
         while True:
+            if stop is not None and lab == stop: return ("stop", prev)
             if self.block_hook: self.block_hook(self, fn, lab, env, prev)
             ins_list = fn.block(lab)
             # phis first (parallel)
@@ -840,6 +873,12 @@ class LSym:
                     self.n_branches += 1
                     sv_ = self.opval(env, ins[3], ins[2])
                     if self.is_secret(sv_): self.leak("branch", "switch on a secret-dependent value", fn, lab, ins)
+                    arms = self.switch_arms(sv_, ins)
+                    if arms is not None:
+                        r = self.fork_merge(fn, env, lab, arms)
+                        if r[0] == "ret": return r
+                        nxt = r[2]      # continue at the join block (it has no phi nodes: checked by fork_merge)
+                        break
                     v = self.P(sv_)
                     if not v.is_const(): raise Unsupported("switch on symbolic value in " + fn.name)
                     w = int_width(ins[2]); cv = v.cval()
@@ -849,7 +888,7 @@ class LSym:
                     if self.record_events: self.events.append(("br", fn.name, lab, nxt))
                     break
                 if op == "ret":
-                    return None if ins[2] is None else self.opval(env, ins[3], ins[2])
+                    return ("ret", None if ins[2] is None else self.opval(env, ins[3], ins[2]))
                 if op == "unreachable": raise PanicReached("unreachable in " + fn.name)
                 if op == "resume": raise PanicReached("resume in " + fn.name)
                 if op == "landingpad":
@@ -857,6 +896,97 @@ class LSym:
                 raise Unsupported("instruction kind " + op)
             if nxt is None: raise Unsupported("fell off block %s in %s" % (lab, fn.name))
             prev, lab = lab, nxt
+
+    # ------------------------------------------------------------------ fork / merge of branch arms (veritesting-style)
+    def switch_arms(self, v, ins):
+        """None: ordinary switch.  Subclasses return [(target label, arm descriptor)] for a switch on an abstract value whose arms
+        are to be executed separately and merged at the join point"""
+        return None
+    def enter_arm(self, desc): return None
+    def leave_arm(self, desc, token): pass
+    def merge_cell(self, base, vals):
+        """vals: [(arm descriptor, cell entry)] with at least two different entries -> merged cell entry"""
+        raise Unsupported("memory cell differs between merged branch arms and cannot be merged")
+    def ipdom(self, fn, lab):
+        key = fn.name
+        pd = self._ipdom.get(key)
+        if pd is None:
+            succ = {}
+            dm = self.doomed(fn)
+            for l in fn.order:
+                t = fn.block(l)[-1]; op = t[0]
+                if op == "br": ss = [t[2]]
+                elif op == "condbr": ss = [t[3], t[4]]
+                elif op == "switch": ss = [t[4]] + [x[1] for x in t[5]]
+                elif op == "invoke": ss = [t[5], t[6]]
+                else: ss = []
+                succ[l] = [x for x in ss if x not in dm] if l not in dm else []
+            EXIT = "%%exit"
+            nodes = list(fn.order) + [EXIT]
+            pdom = {n: set(nodes) for n in nodes}; pdom[EXIT] = {EXIT}
+            changed = True
+            while changed:
+                changed = False
+                for n in reversed(fn.order):
+                    ss = succ[n] or [EXIT]
+                    new = set.intersection(*[pdom[x] for x in ss]) | {n}
+                    if new != pdom[n]: pdom[n] = new; changed = True
+            pd = {}
+            for n in fn.order:
+                cands = pdom[n] - {n}
+                # immediate post-dominator: the candidate that is post-dominated by all other candidates
+                best = None
+                for c in cands:
+                    if all((o == c) or (o in pdom[c]) for o in cands): best = c; break
+                pd[n] = best
+            self._ipdom[key] = pd
+        return pd.get(lab)
+    def fork_merge(self, fn, env, lab, arms):
+        join = self.ipdom(fn, lab)
+        if join is None or join == "%%exit": raise Unsupported("no join point for the symbolic switch in %s:%s" % (fn.name[-60:], lab))
+        jb = fn.block(join)
+        if jb and jb[0][0] == "phi": raise Unsupported("join block of a merged switch starts with phi (optimised IR)")
+        outer = self.wl[0]
+        results = []
+        for target, desc in arms:
+            self.wl[0] = {}
+            tok = self.enter_arm(desc)
+            try:
+                r = self.run_blocks(fn, dict(env), target, lab, join)
+            finally:
+                self.leave_arm(desc, tok)
+            log = self.wl[0]; self.wl[0] = None
+            if r[0] == "ret": raise Unsupported("a merged branch arm returns from the function")
+            vals = {}
+            for (rn, k), old in log.items():
+                vals[(rn, k)] = dict.get(self.regions[rn].b, k, _MISSING)
+                if old is _MISSING: dict.pop(self.regions[rn].b, k, None)
+                else: dict.__setitem__(self.regions[rn].b, k, old)
+            results.append((desc, vals, log))
+        self.wl[0] = outer
+        self._mcache = {}
+        cells = set()
+        for _, vals, _ in results: cells.update(vals)
+        for cell in cells:
+            rn, k = cell
+            base = dict.get(self.regions[rn].b, k, _MISSING)
+            per = [(d, vals.get(cell, base)) for d, vals, _ in results]
+            first = per[0][1]
+            if all(self.same_cell(first, v) for _, v in per[1:]): new = first
+            else: new = self.merge_cell(base, per)
+            if new is _MISSING: self.regions[rn].b.pop(k, None)
+            else: self.regions[rn].b[k] = new
+        self.merges += 1
+        return ("stop", "%merged", join)
+    def same_cell(self, a, b):
+        if a is b: return True
+        if a is _MISSING or b is _MISSING: return False
+        if a[1] != b[1] or a[2] != b[2]: return False
+        x, y = a[0], b[0]
+        if x is y: return True
+        if isinstance(x, Poly) and isinstance(y, Poly): return x.t == y.t
+        if isinstance(x, Ptr) and isinstance(y, Ptr): return x.r == y.r and x.o == y.o
+        return False
 
 # ---- simple instruction handlers --------------------------------------------------------------
 def _i_binop(self, env, ins):
